@@ -20,6 +20,7 @@ from . import build as build_mod
 HERE = os.path.dirname(os.path.dirname(os.path.abspath(__file__)))
 PY = build_mod.PY
 
+CRASH_SIGNALS = (-11, -6, -7, -4, -8)      # SIGSEGV, SIGABRT, SIGBUS, SIGILL, SIGFPE
 STALL_S = float(os.environ.get("VERIF_STALL_S", "120"))       # no heartbeat for this long -> suspected hang
 RERUN_S = float(os.environ.get("VERIF_RERUN_S", "240"))       # the suspected case alone gets this long
 
@@ -79,6 +80,10 @@ def run_replay(prop, binfo, path, builds):
                 p = subprocess.run(cmd, env=env, cwd=HERE, timeout=RERUN_S)
             except subprocess.TimeoutExpired:
                 print("VIOLATION property=%s replay=%s   (hang: no result within %ds, build %s)" % (prop, path, RERUN_S, b))
+                rc = 1
+                continue
+            if p.returncode in CRASH_SIGNALS:
+                print("VIOLATION property=%s replay=%s   (crash: the interpreter was killed by signal %d, build %s)" % (prop, path, -p.returncode, b))
                 rc = 1
                 continue
             if p.returncode != 0:
@@ -190,6 +195,24 @@ def main(argv=None):
                 if confirmed:
                     merged["violations"].append(v)
                 continue
+            if w["p"].returncode in CRASH_SIGNALS:
+                # the interpreter itself died (segmentation fault / abort) in the middle of a case: confirm alone
+                try:
+                    h = json.load(open(w["hb"]))
+                except Exception:
+                    h = {}
+                if h.get("case") is not None:
+                    v = {"sub": h["sub"], "sig": "%s.crash" % prop, "msg": "the interpreter was killed by signal %d while executing this case" % -w["p"].returncode, "case": h["case"], "build": w["b"]}
+                    path = save_replay(prop, v)
+                    out = os.path.join(tmp, "crash-%s-%d.json" % (w["b"], w["s"]))
+                    cmd, env = worker_cmd(prop, binfo, w["b"], ["--replay", os.path.join(HERE, path), "--out", out])
+                    try:
+                        p = subprocess.run(cmd, env=env, cwd=HERE, timeout=RERUN_S, stdout=subprocess.DEVNULL, stderr=subprocess.DEVNULL)
+                        if p.returncode == w["p"].returncode:
+                            merged["violations"].append(v)
+                            continue
+                    except subprocess.TimeoutExpired:
+                        pass
             if w["p"].returncode != 0:
                 print("harness error in worker %s/%d (exit %s):\n%s" % (w["b"], w["s"], w["p"].returncode, open(w["err"]).read()[-3000:]), file=sys.stderr)
                 harness_error = True
